@@ -4347,6 +4347,7 @@ class Session(_SessionClassMethods, EventTarget):
                 "Instance '%s' is not persisted" % state_str(state)
             )
 
+        was_deleted = state._deleted
         if state._deleted:
             if revert_deletion:
                 if not state._attached:
@@ -4376,7 +4377,9 @@ class Session(_SessionClassMethods, EventTarget):
 
         if to_attach:
             self._after_attach(state, obj)
-        elif revert_deletion:
+        elif revert_deletion and was_deleted:
+            # objects that were only marked by Session.delete() never left
+            # the persistent state: no event
             self.dispatch.deleted_to_persistent(self, state)
 
     def _save_or_update_impl(self, state: InstanceState[Any]) -> None:
